@@ -1709,6 +1709,36 @@ def _graph(ctx, tier):
     return _GRAPHS[tier]
 
 
+def result_is_new_object(ctx):
+    """burnthin "returns the burnthinned samples as a new Samples object" (JointSamples: "a copy") - also when nothing is removed
+    (Nb = 0, Nt = 1): the result is another object, and assigning to the attributes of the result leaves the source as it was."""
+    import cuqi
+    for gname, geom, n in (("c1d3", cuqi.geometry.Continuous1D(3), 3), ("disc2", cuqi.geometry.Discrete(2), 2), ("none", None, 3)):
+        for Ns in (1, 2, 5):
+            for Nb, Nt in ((0, 1), (0, 2), (1, 1), (0, None)):
+                if Nb >= Ns:
+                    continue
+                A = np.arange(1.0, n * Ns + 1).reshape(n, Ns)
+                src = cuqi.samples.Samples(A.copy(), geometry=geom) if geom is not None else cuqi.samples.Samples(A.copy())
+                case = {"kind": "new_object", "g": gname, "Ns": Ns, "Nb": Nb, "Nt": Nt}
+                ctx.case(("new_object", gname, Ns, Nb, Nt))
+                for holder in ("samples", "joint"):
+                    obj = src if holder == "samples" else cuqi.samples.JointSamples({"x": src})
+                    res = obj.burnthin(Nb) if Nt is None else obj.burnthin(Nb, Nt)
+                    inner = res if holder == "samples" else res["x"]
+                    sig = "new_object/%s/burnthin/g=%s/Ns=%d/b=%d/t=%s" % (holder, gname, Ns, Nb, Nt)
+                    ctx.facets["new_object/" + holder] = ctx.facets.get("new_object/" + holder, 0) + 1
+                    if res is obj or inner is src:
+                        ctx.mismatch(sig + "/same_object", case, "burnthin handed back the source object itself, not a new Samples object")
+                        continue
+                    geo_before = repr(src.geometry)
+                    inner.samples = np.zeros((n, 1))
+                    inner.geometry = cuqi.geometry.Discrete(n)
+                    if not np.array_equal(np.asarray(src.samples), A) or repr(src.geometry) != geo_before:
+                        ctx.mismatch(sig + "/source_follows_result", case, "assigning samples / geometry of the result of burnthin changed the source",
+                                     A, np.asarray(src.samples))
+
+
 def run(ctx, only=None):
     if only is None:
         # the three groups of TLC runs (main machine, frame machine, deviations) are independent: started together, each
@@ -1751,6 +1781,8 @@ def run(ctx, only=None):
                                  % (sorted(pms), miss, ctx.facets.get("plot_ci_judged")))
         ctx.observe("levels_replayed", {k[6:]: ctx.facets[k] for k in sorted(ctx.facets) if k.startswith("level/")})
         ctx.observe("layouts_replayed", {k: ctx.facets[k] for k in sorted(ctx.facets) if k.startswith("stats_layout_") or k.startswith("frame_layout_")})
+    if only is None:
+        result_is_new_object(ctx)
     n_trace = run_traces(ctx) if only is None else 0
     cand = [k for k in sorted(graph.nodes) if k[1][3] == "imgF" and not k[1][1] and not k[1][2] and len(k[1][0]) == 3]
     some = cand[0] if cand else sorted(graph.nodes)[len(graph.nodes) // 2]
